@@ -322,7 +322,7 @@ def judge(pid, seed, tier):
                             [rt, rc], "average score at the sample's own functional <= average score at any other admissible constant")
     if pid == "C08":
         for f in ("mean", "median", "expectile", "quantile"):
-            for a in levels:
+            for a in levels + [0.5 + 2.0 ** -18, 0.5 - 1e-7, 0.5 + 1e-9]:
                 for y in pts:
                     prev = None
                     for z in sorted(pts):
@@ -350,6 +350,54 @@ def judge(pid, seed, tier):
                             add("ElementaryScore.score_per_obs", [eta, f, a, y, z], r, "elementary score >= 0")
                         if y == z and r[0] == "val" and abs(r[1]) > 1e-12:
                             add("ElementaryScore.score_per_obs", [eta, f, a, y, z], r, "elementary score = 0 at y = z")
+        # integral over eta: the integrand is linear in eta strictly between y and z and 0 outside,
+        # so (value at the midpoint) * |z - y| is the exact integral
+        for f in ("mean", "median", "expectile", "quantile"):
+            for a in levels:
+                for y, z in itertools.product(pts, pts):
+                    if y == z:
+                        continue
+                    tried += 1
+                    mid = (y + z) / 2
+                    r = real(lambda: ElementaryScore(eta=mid, functional=f, level=a).score_per_obs([y], [z]))
+                    want = {"mean": 0.5 * (y - z) ** 2, "median": 0.5 * abs(z - y), "quantile": ((1.0 if z >= y else 0.0) - a) * (z - y),
+                            "expectile": abs((1.0 if z >= y else 0.0) - a) * (y - z) ** 2}[f]
+                    if r[0] != "val" or abs(r[1] * abs(z - y) - want) > 1e-9 * (1 + abs(want)):
+                        add("ElementaryScore.score_per_obs", [mid, f, a, y, z], r, f"integral over eta equals {want}")
+        # consistency, with eta on data values
+        from fractions import Fraction as Fr
+        for _ in range(120 if tier == "quick" else 1200):
+            k = rng.randint(1, 6)
+            ys = [float(rng.randint(0, 4)) for _ in range(k)]
+            ws = [rng.choice([0.5, 1.0, 2.0, 3.0]) for _ in range(k)]
+            f = rng.choice(["mean", "quantile", "median", "expectile"])
+            a = 0.5 if f == "median" else rng.choice([0.25, 0.5, 0.75, 0.3])
+            W = sum(Fr(w) for w in ws)
+            if f == "mean":
+                ts = [float(sum(Fr(w) * Fr(y) for y, w in zip(ys, ws)) / W)]
+            elif f == "expectile":
+                A = Fr(a)
+                ts = []
+                for t0 in sorted(set(ys)):
+                    up = [(y, w) for y, w in zip(ys, ws) if y > t0]
+                    lo = [(y, w) for y, w in zip(ys, ws) if y <= t0]
+                    t = (A * sum(Fr(w) * Fr(y) for y, w in up) + (1 - A) * sum(Fr(w) * Fr(y) for y, w in lo)) / (A * sum(Fr(w) for _, w in up) + (1 - A) * sum(Fr(w) for _, w in lo))
+                    nxt = min([c for c in set(ys) if c > t0], default=None)
+                    if t >= t0 and (nxt is None or t <= nxt):
+                        ts = [float(t)]
+                        break
+            else:
+                ts = [float(v) for v in sorted(set(ys)) if sum(Fr(w) for y, w in zip(ys, ws) if y < v) <= Fr(a) * W <= sum(Fr(w) for y, w in zip(ys, ws) if y <= v)]
+            for eta in sorted(set(ys)) + [0.5, 2.5]:
+                es = ElementaryScore(eta=eta, functional=f, level=a)
+                for t in ts:
+                    rt = real(lambda: es(ys, [t] * k, weights=ws))
+                    for c in [0.0, 1.0, 2.0, 3.0, 4.0, 0.5, 1.5, 2.5, 3.5, -1.0, 5.0]:
+                        tried += 1
+                        rc = real(lambda: es(ys, [c] * k, weights=ws))
+                        if rt[0] == "val" and rc[0] == "val" and rc[1] < rt[1] - 1e-9:
+                            add("ElementaryScore.__call__", dict(eta=eta, functional=f, level=a, y=ys, w=ws, functional_value=t, other_constant=c), [rt, rc],
+                                "average elementary score is minimised by the sample's functional (also when eta is an observation)")
     return dict(failures=fails, tried=tried)
 
 
